@@ -120,7 +120,7 @@ def instances(tier, rng):
     cells = 9 if tier == "quick" else 12
     shapes = graphs.grid_shapes(cells)
     if tier == "thorough":
-        shapes += [(4, 4), (1, 14), (2, 7)]
+        shapes += [(4, 4), (1, 14), (2, 7), (3, 5), (5, 3), (2, 8), (8, 2)]
     for (h, w) in shapes:
         for acyclic in (False, True):
             for prim in (False, True):
